@@ -134,6 +134,33 @@ pub fn exec(case: &[i64]) -> Outcome {
         }
       }
     }
+    5 => {
+      // kind 1 on the DEFAULT resolver (Send + Sync handlers, its own attach_handler): same observation
+      use std::sync::{Arc, Mutex};
+      let (m, i, ok) = (v[0], v[1], v[2] != 0);
+      let did: CoreDID = did_str(m, i).parse().unwrap();
+      let slog: Arc<Mutex<Vec<(i64, String)>>> = Arc::new(Mutex::new(vec![]));
+      let mut r = identity_resolver::Resolver::<CoreDocument>::new();
+      for (tm, th, kind) in &tab {
+        let (slog, th) = (slog.clone(), *th);
+        if *kind == 0 {
+          r.attach_handler(mname(*tm).to_string(), move |d: CoreDID| { let slog = slog.clone(); async move { slog.lock().unwrap().push((th, d.as_str().to_string())); if ok { Ok(doc_for(d.as_str(), th)) } else { Err(HErr) } } });
+        } else {
+          r.attach_handler(mname(*tm).to_string(), move |d: DIDJwk| { let slog = slog.clone(); async move { slog.lock().unwrap().push((th, d.as_str().to_string())); CoreDocument::expand_did_jwk(d).map_err(|_| HErr) } });
+        }
+      }
+      let res = crate::jws_storage::rt().block_on(r.resolve(&did));
+      let mut obs = match &res { Ok(d) => vec![0, doc_number(d)], Err(e) => vec![match e.error_cause() { ErrorCause::UnsupportedMethodError { .. } => 1, ErrorCause::DIDParsingError { .. } => 2, _ => 3 }] };
+      let calls = slog.lock().unwrap().clone();
+      obs.push(calls.len() as i64); for (h, s) in &calls { let p: Vec<&str> = s.split(':').collect(); obs.extend([*h, m * ((p[1] == mname(m)) as i64), p[2].parse::<i64>().unwrap_or(-1)]); }
+      let mut o = Outcome::new(obs).class(if res.is_ok() { "single-default-ok" } else { "single-default-err" });
+      match registered(m) {
+        None => { if !calls.is_empty() { o = o.fail("a handler was called for a DID whose method has no handler"); } }
+        Some((h, 0)) => { if calls != vec![(h, did.as_str().to_string())] { o = o.fail("default resolver: not exactly the handler attached last for the method, once, with that DID"); } if res.is_ok() != ok { o = o.fail("handler result not returned"); } }
+        Some(_) => { if !calls.is_empty() { o = o.fail("handler called although its DID type does not parse the DID"); } }
+      }
+      o
+    }
     3 | 4 => {
       let key = v[1];
       let jwk_json = match key % 10 {
@@ -186,6 +213,7 @@ pub fn gen(rng: &mut Rng, thorough: bool, sink: &mut Sink) {
   let tables: Vec<Vec<(i64, i64, i64)>> = vec![vec![], vec![(1, 1, 0)], vec![(1, 1, 0), (2, 2, 0)], vec![(1, 1, 0), (2, 2, 0), (3, 3, 0)], vec![(1, 1, 0), (1, 4, 0)], vec![(1, 1, 0), (2, 5, 1)], vec![(2, 2, 0), (1, 1, 0), (2, 6, 0)]];
   let head = |kind: i64, t: &Vec<(i64, i64, i64)>| { let mut c = vec![kind, t.len() as i64]; for (m, h, k) in t { c.extend([*m, *h, *k]); } c };
   for t in &tables { for m in [1i64, 2, 3] { for i in [1i64, 2] { for ok in 0..2 { let mut c = head(1, t); c.extend([m, i, ok]); sink.case(c, "single"); } } } }
+  for t in &tables { for m in [1i64, 2, 3] { for i in [1i64, 2] { for ok in 0..2 { let mut c = head(5, t); c.extend([m, i, ok]); sink.case(c, "single-default-resolver"); } } } }
   // resolve_multiple: DID lists with duplicates and unsupported methods; ALL completion orders; all ok/err scripts
   let lists: Vec<Vec<(i64, i64)>> = vec![vec![(1, 1)], vec![(1, 1), (1, 2)], vec![(1, 1), (2, 1), (1, 1)], vec![(1, 1), (1, 2), (2, 1), (2, 2), (1, 2)], vec![(1, 1), (3, 1)], vec![(1, 1), (1, 2), (2, 1), (1, 3), (2, 2)], vec![]];
   for t in &tables[1..] { for l in &lists {
